@@ -50,6 +50,9 @@ pub struct W3Cfg {
     pub allow_offgrid: bool,
     /// batches may exceed `step_size` (C05 overflow clause); otherwise such a step is an invalid request
     pub allow_overflow: bool,
+    /// C11 marathon: the scenario is this many steps on one environment (almost all idle), audited sparsely (0 = ordinary run)
+    #[serde(default)]
+    pub marathon: u64,
 }
 
 #[derive(Clone, Debug, Serialize, Deserialize, PartialEq)]
